@@ -33,6 +33,7 @@ type step struct {
 	R    int      `json:"r"`
 	Busy bool     `json:"busy"` // other values are compressed / decompressed while the write is on its way
 	D    int      `json:"d"`    // nesting depth of the reply of a read: 0 bulk, 1 flat array, 2 nested array
+	Sz   []int    `json:"sz"`   // absolute sizes of the value positions (0: near the threshold)
 	N    string   `json:"n"`    // the backend connection the request is first sent over ("a", "b"; "any": connection age not modelled); the node of a reconnect
 }
 
@@ -61,6 +62,8 @@ type result struct {
 	Nested  int      `json:"nested"`  // values stored compressed that were read back inside a nested array
 	Multi   int      `json:"multi"`   // requests that carried two or more values that reached the backend compressed
 	Traffic int      `json:"traffic"` // background values written and read back while a write was on its way
+	Large   int      `json:"large"`   // values of more than 512 KiB that reached the backend compressed and were read back
+	Refused int      `json:"refused"` // updates with a compression section without threshold that the processor refused
 	OldConn int      `json:"oldconn"` // values stored compressed that were read back over a connection made before the config became what it is
 	OffConn int      `json:"offconn"` // compressible values written over a connection made while compression was enabled, after it was switched off
 	Cmds    []string `json:"cmds"`
@@ -123,6 +126,25 @@ func valueOf(cls string, thr int, rnd *rand.Rand) []byte {
 		}
 		return v
 	}
+}
+
+// sizedValue returns a large value of exactly n bytes: compressible (a text whose lines carry their number, so that every
+// part of the value differs from every other) or incompressible (random bytes).
+func sizedValue(cls string, n int, rnd *rand.Rand) []byte {
+	v := make([]byte, 0, n+64)
+	if cls == "incomp" {
+		v = v[:n]
+		rnd.Read(v)
+		if bytes.HasPrefix(v, predis.VerifCompressHeader()) {
+			v[0] ^= 0xff
+		}
+		return v
+	}
+	salt := rnd.Intn(1 << 20)
+	for i := 0; len(v) < n; i++ {
+		v = append(v, fmt.Sprintf("line %08d of a large value, salt %07d, the quick brown fox jumps over the lazy dog\n", i, salt)...)
+	}
+	return v[:n]
 }
 
 // storedFormOK checks the documented stored form: original, or header + one snappy stream expanding to the original and shorter.
@@ -571,6 +593,7 @@ type replayer struct {
 	// keys that are read back with a command whose reply nests arrays
 	needHash map[string]bool
 	curCfg   string
+	bareAck  bool // an update with a compression section without threshold was acknowledged
 	// histories with connection age: the config under which the connection to each node was made
 	connCfg map[int]string
 }
@@ -636,6 +659,10 @@ func (p *replayer) write(i int, st step, variant int) *wrote {
 	n := len(st.Vals)
 	vals := make([][]byte, n)
 	for j, cls := range st.Vals {
+		if j < len(st.Sz) && st.Sz[j] > 0 {
+			vals[j] = sizedValue(cls, st.Sz[j], rnd)
+			continue
+		}
 		vals[j] = valueOf(cls, p.thr, rnd)
 		if vals[j] == nil {
 			p.res.Err = "no value of class " + cls
@@ -1028,6 +1055,9 @@ func (p *replayer) read(i int, st step, w *wrote, variant int, curCfg string) {
 		if older && w.packed[j] && curCfg != "absent" {
 			p.res.OldConn++
 		}
+		if w.packed[j] && len(w.origs[j]) > 512*1024 && curCfg != "absent" {
+			p.res.Large++
+		}
 		if bytes.Equal(got[j], w.origs[j]) {
 			continue
 		}
@@ -1040,6 +1070,12 @@ func (p *replayer) read(i int, st step, w *wrote, variant int, curCfg string) {
 		sig := fmt.Sprintf("read-back/redirects=%d", st.R)
 		if depth == 2 {
 			sig = fmt.Sprintf("read-back/nested-reply/redirects=%d", st.R)
+		}
+		if len(w.origs[j]) >= 65535 {
+			sig = fmt.Sprintf("read-back/large-value/redirects=%d", st.R)
+		}
+		if p.bareAck {
+			sig = "read-back/section-without-threshold-acknowledged"
 		}
 		if older {
 			sig = "read-back/connection-older-than-config"
@@ -1090,6 +1126,21 @@ func replayOne(e *env, id int, steps []step, rnd *rand.Rand, thr int, fresh bool
 		}
 		switch st.A {
 		case "config":
+			if strings.HasSuffix(st.C, "-bare") {
+				// a compression section without threshold: the validator refuses it (Compress.tla, BareConfig) and nothing
+				// changes; should the processor acknowledge it, the operator has been told that compression is on / off
+				on := st.C == "enabled-bare"
+				cfg := sut.RedisConfig(sut.RedisOpts{Port: portOf(e.px.Addr), Compression: &pbredis.Compression{Enable: on, Algorithm: pbredis.Compression_SNAPPY}})
+				if err := e.px.P.OnSvcConfigUpdate(cfg); err != nil {
+					res.Refused++
+				} else {
+					p.bareAck = true
+					curCfg = map[bool]string{true: "enabled", false: "disabled"}[on]
+					p.curCfg = curCfg
+					e.note("history :%d: update %s acknowledged", id, st.C)
+				}
+				continue
+			}
 			curCfg = st.C
 			p.curCfg = st.C
 			if err := e.setConfig(st.C, thr); err != nil {
